@@ -58,8 +58,8 @@ fn plan(tier: Tier) -> Plan {
         b_len,
         a_batches: count_upto(7, a_len).div_ceil(BATCH),
         b_batches: count_upto(13, b_len).div_ceil(BATCH),
-        c_cases: tier.pick(400, 10_000),
-        d_cases: tier.pick(300, 6_000),
+        c_cases: tier.pick(400, 60_000),
+        d_cases: tier.pick(300, 40_000),
         e_cases: tier.pick(60, 1_500),
     }
 }
